@@ -1,5 +1,7 @@
 import logging
 
+import numpy as np
+
 from ..data import Data
 from ..decorators import (
     _display_or_return,
@@ -329,7 +331,9 @@ class PropertiesData(Properties):
             for prop in ("_FillValue", "missing_value"):
                 x = v.get_property(prop, None)
                 if x is not None:
-                    fill_values.append(x)
+                    # A vector-valued missing_value provides
+                    # multiple fill values
+                    fill_values.extend(x if np.ndim(x) else (x,))
 
             kwargs = {"inplace": True, "fill_values": fill_values}
 
